@@ -1,6 +1,6 @@
 //! helpers shared by the case runners: panic capture, record decoding
 use crate::sexp::*;
-use bed_utils::bed::GenomicRange;
+use bed_utils::bed::{BEDLike, GenomicRange, NarrowPeak, Strand, BED};
 use std::sync::Mutex;
 
 /// runs `f` with an `emit` callback; a panic inside the code under test appends `panic`;
@@ -32,3 +32,70 @@ pub fn region(x: &Sx) -> GenomicRange {
 pub fn sx_region<B: bed_utils::bed::BEDLike>(g: &B) -> Sx {
     Sx::L(vec![hex(g.chrom().as_bytes()), a(g.start()), a(g.end())])
 }
+
+/// Walks freshly made iterators in the other ways the `Iterator` API offers (a few external `next()` calls followed by
+/// internal iteration, `nth`, `skip`, `step_by`, `take` on `by_ref`, `count`, `last`, `size_hint`) and compares each with
+/// the plainly collected sequence.  Returns the name of the first walk that differs.
+pub fn walk_check<T: PartialEq, I: Iterator<Item = T>>(mk: &dyn Fn() -> I) -> Option<&'static str> {
+    let base: Vec<T> = mk().collect();
+    let n = base.len();
+    let (lo, hi) = mk().size_hint();
+    if lo > n || hi.map_or(false, |h| h < n) { return Some("size_hint"); }
+    if mk().count() != n { return Some("count"); }
+    if mk().last().as_ref() != base.last() { return Some("last"); }
+    for k in 0..4usize {
+        let mut it = mk();
+        let mut got: Vec<T> = Vec::new();
+        for _ in 0..k { if let Some(x) = it.next() { got.push(x); } }
+        let (lo, hi) = it.size_hint();
+        let rest = n.saturating_sub(k);
+        if lo > rest || hi.map_or(false, |h| h < rest) { return Some("next-then-size_hint"); }
+        let got = it.fold(got, |mut v, x| { v.push(x); v });
+        if got != base { return Some("next-then-fold"); }
+        let mut it = mk();
+        let mut got: Vec<T> = Vec::new();
+        for _ in 0..k { if let Some(x) = it.next() { got.push(x); } }
+        it.for_each(|x| got.push(x));
+        if got != base { return Some("next-then-for_each"); }
+        let mut it = mk();
+        let mut got: Vec<T> = it.by_ref().take(k).collect();
+        got.extend(it);
+        if got != base { return Some("take-then-rest"); }
+        let mut it = mk(); for _ in 0..k { it.next(); }
+        if it.count() != rest { return Some("next-then-count"); }
+        let mut it = mk(); for _ in 0..k { it.next(); }
+        if it.last().as_ref() != (if k < n { base.last() } else { None }) { return Some("next-then-last"); }
+    }
+    for &k in [0usize, 1, 2, 3, n.saturating_sub(1), n, n + 1, 1 << 20, usize::MAX / 2, usize::MAX].iter() {
+        if mk().nth(k).as_ref() != base.get(k) { return Some("nth"); }
+        let mut it = mk(); it.next();
+        if it.nth(k).as_ref() != k.checked_add(1).and_then(|j| base.get(j)) { return Some("next-then-nth"); }
+        if k <= n + 1 {
+            let got: Vec<T> = mk().skip(k).collect();
+            if got.len() != n.saturating_sub(k) || got.iter().zip(base.iter().skip(k)).any(|(x, y)| x != y) { return Some("skip"); }
+        }
+        if k >= 1 && k <= n + 1 {
+            let got: Vec<T> = mk().step_by(k).collect();
+            if got.len() != base.iter().step_by(k).count() || got.iter().zip(base.iter().step_by(k)).any(|(x, y)| x != y) { return Some("step_by"); }
+        }
+    }
+    None
+}
+
+pub fn np(g: &GenomicRange) -> NarrowPeak {
+    NarrowPeak { chrom: g.chrom().to_string(), start: g.start(), end: g.end(), name: Some("n".into()), score: None, strand: None, signal_value: 1.5, p_value: None, q_value: Some(0.0), peak: 3 }
+}
+/// BED<6> views of one range that differ in everything the order must ignore: name, score and strand
+pub fn bed6v(g: &GenomicRange, k: usize) -> BED<6> {
+    let strand = match k % 3 { 0 => None, 1 => Some(Strand::Forward), _ => Some(Strand::Reverse) };
+    let name = match k % 4 { 0 => None, 1 => Some("a".to_string()), 2 => Some("zz".to_string()), _ => Some("".to_string()) };
+    let score = match k % 2 { 0 => None, _ => Some(((k % 11) as u16 * 100).try_into().unwrap()) };
+    BED::new(g.chrom(), g.start(), g.end(), name, score, strand, Default::default())
+}
+pub fn npv(g: &GenomicRange, k: usize) -> NarrowPeak {
+    let mut r = np(g);
+    r.strand = match k % 3 { 0 => None, 1 => Some(Strand::Forward), _ => Some(Strand::Reverse) };
+    r.signal_value = k as f64; r.peak = 1000 - k as u64; r.name = if k % 2 == 0 { None } else { Some("q".into()) };
+    r
+}
+
